@@ -47,6 +47,9 @@ def _latent_time_interval(ts: datetime, ti: Interval) -> Interval:
     if dm_from <= ts:
         dm_from += relativedelta(days=1)
         dm_to += relativedelta(days=1)
+    if dm_to <= dm_from:
+        # the range wraps around midnight (23:30 - 3:35): it ends on the next day
+        dm_to += relativedelta(days=1)
     return Interval(
         t_from=Time(
             year=dm_from.year,
